@@ -1,9 +1,9 @@
 SPECIFICATION Spec
 CONSTANTS
-  MaxLines = 8
+  MaxLines = 7
   Prefix <- PrefixNest
   Alphabet <- AlphaNest
-  Fixed <- AllDevs
+  Fixed <- DevsNone
 INVARIANT TypeOK
-INVARIANT Fidelity
-INVARIANT PartSize
+INVARIANT OnlyKnown
+INVARIANT KnownDeviates
